@@ -61,7 +61,7 @@ func genStored(t *rapid.T) val.V {
 	}
 }
 
-var destKinds = []string{"string", "bytes", "int64", "int32", "int", "bool", "float64", "time", "nil", "unsupported-uint", "unsupported-value", "unsupported-ptrptr", "unsupported-int8"}
+var destKinds = []string{"string", "bytes", "int64", "int32", "int", "bool", "float64", "time", "nil", "unsupported-uint", "unsupported-value", "unsupported-ptrptr", "unsupported-int8", "unsupported-nil-string", "unsupported-nil-int64", "unsupported-nil-bytes", "unsupported-nil-time"}
 
 type convSpec struct {
 	Row   []val.V
@@ -197,6 +197,16 @@ func newDest(k string) interface{} {
 	case "unsupported-int8":
 		x := int8(7)
 		return &x
+	// a pointer of a supported type that points nowhere: there is nothing to
+	// store the value in
+	case "unsupported-nil-string":
+		return (*string)(nil)
+	case "unsupported-nil-int64":
+		return (*int64)(nil)
+	case "unsupported-nil-bytes":
+		return (*[]byte)(nil)
+	case "unsupported-nil-time":
+		return (*time.Time)(nil)
 	}
 	panic("unknown dest kind " + k)
 }
@@ -245,7 +255,7 @@ func checkOne(s convSpec, row sqlittle.Row, i int, k string) (outcome string, de
 		if p, sg := mustOK(); p != "" {
 			return "", d, p, sg
 		}
-	case "unsupported-uint", "unsupported-value", "unsupported-ptrptr", "unsupported-int8":
+	case "unsupported-uint", "unsupported-value", "unsupported-ptrptr", "unsupported-int8", "unsupported-nil-string", "unsupported-nil-int64", "unsupported-nil-bytes", "unsupported-nil-time":
 		return mustErr()
 	case "string", "bytes":
 		if p, sg := mustOK(); p != "" {
